@@ -60,6 +60,7 @@ type modelState struct {
 	fpSeq          int
 	forkSeq        int
 	fnIDs          map[*ssa.Function]int64
+	extraVars      []*smt.Term
 	pureMemo       map[*ssa.BasicBlock]bool
 	IfConverted    int
 	NoIfConv       bool
@@ -70,6 +71,7 @@ func (ex *Exec) modelReset() {
 	ex.lastNow = nil
 	ex.branchMemo = nil
 	ex.fpSeq = 0
+	ex.extraVars = nil
 }
 
 func (ex *Exec) modelZero(t types.Type) value {
